@@ -229,12 +229,12 @@ Theorem C10mk_varassign_ml_single : forall text : str,
 Proof. exact ml_single. Qed.
 Print Assumptions C10mk_varassign_ml_single.
 
-(* the guard (repaired code): an accepted multi-line assignment has its operator in the first raw
-   line - the raw text of the logical line up to the operator (the alignment prefix without its
-   trailing blanks) is no longer than the first physical line without continuation backslash *)
+(* the guard (/repo 96b19dc): an accepted multi-line assignment has its operator in the first raw
+   line - the raw text of the logical line up to and including the operator is no longer than the
+   first physical line without its continuation backslash and trailing blanks *)
 Theorem C10mk_varassign_ml_guard : forall (raw0 text : str) (a : varassign),
   parse_varassign_ml true raw0 text = Ok (Some a) ->
-  exists al r, text = al ++ r /\ (length (rtrim_hspace al) <= length (first_line_of raw0))%nat.
+  exists up_to_op r, text = up_to_op ++ r /\ (length up_to_op <= length (first_line_of raw0))%nat.
 Proof. exact varassign_ml_guard. Qed.
 Print Assumptions C10mk_varassign_ml_guard.
 
@@ -251,12 +251,12 @@ Theorem C10mk_varassign_ml_value_comment_recombine :
 Proof. exact varassign_ml_value_comment_recombine. Qed.
 Print Assumptions C10mk_varassign_ml_value_comment_recombine.
 
-(* the alignment prefix of an accepted assignment is a prefix of the logical text (of which the first
-   physical line is a prefix), followed by blanks only when the value is empty *)
+(* the alignment prefix of an accepted assignment is a prefix of the FIRST RAW LINE, followed by
+   blanks only when the value is empty (the spaceBeforeComment moved into it) *)
 Theorem C10mk_varassign_ml_align_prefix :
   forall (multiline : bool) (raw0 text : str) (a : varassign),
   parse_varassign_ml multiline raw0 text = Ok (Some a) ->
-  exists al r sp, text = al ++ r /\ va_value_align a = al ++ sp /\ forallb is_hspace sp = true /\
+  exists al r sp, raw0 = al ++ r /\ va_value_align a = al ++ sp /\ forallb is_hspace sp = true /\
     (va_value a <> [] -> sp = []).
 Proof. exact varassign_ml_align_prefix. Qed.
 Print Assumptions C10mk_varassign_ml_align_prefix.
@@ -269,28 +269,38 @@ Theorem C10mk_varassign_file_lines :
     forall a, snd lr = Ok (Some a) ->
       va_law (Lines.text (fst lr)) a /\
       (line_multiline (fst lr) = true ->
-       exists al r, Lines.text (fst lr) = al ++ r /\
-         (length (rtrim_hspace al) <= length (first_line_of (line_raw0 (fst lr))))%nat)) ls.
+       exists up_to_op r, Lines.text (fst lr) = up_to_op ++ r /\
+         (length up_to_op <= length (first_line_of (line_raw0 (fst lr))))%nat)) ls.
 Proof. exact varassign_of_file_lines. Qed.
 Print Assumptions C10mk_varassign_file_lines.
 
-(* FULL statement, now a theorem (since the repair of the guard): matchVarassign does not panic on a
-   logical line, whatever its raw lines are, unless parsing the logical text alone does *)
+(* No panic on logical lines of several raw lines (since /repo 96b19dc).
+   The shape of a line: one raw line = the text; several: F = the first physical line without its
+   continuation backslash and trailing blanks starts both the raw line and the logical text. *)
 Theorem C10mk_varassign_ml_no_panic_line : forall (multiline : bool) (raw0 text : str) (r : option varassign),
+  (if multiline then exists x y, text = first_line_of raw0 ++ x /\ raw0 = first_line_of raw0 ++ y
+   else raw0 = text) ->
   parse_varassign text = Ok r -> parse_varassign_ml multiline raw0 text <> Panic.
 Proof. exact varassign_ml_no_panic. Qed.
 Print Assumptions C10mk_varassign_ml_no_panic_line.
 
-(* ... and for every line convertToLogicalLines builds from any file text (line.raw[0] exists: C09) *)
-Theorem C10mk_varassign_ml_no_panic :
+(* FULL statement over files: for every line convertToLogicalLines builds, matchVarassign does not
+   panic unless parsing the logical text alone does.  Not refuted any more (the former witness is an
+   Example below); proved below with the shape of the line as a hypothesis - that
+   convertToLogicalLines gives every line this shape is corresponded on every run
+   (C10/correspondence/varassign-ml-line-shape), not yet derived from C09's theorems. *)
+Definition C10mk_varassign_ml_no_panic_full : Prop := ml_no_panic_full.
+
+Theorem C10mk_varassign_ml_no_panic_partial :
   forall (raw_text : str) (ls : list (Lines.line * res (option varassign))),
   varassign_of_file raw_text = Ok ls ->
   Forall (fun lr : Lines.line * res (option varassign) =>
+    ml_shape (line_multiline (fst lr)) (line_raw0 (fst lr)) (Lines.text (fst lr)) ->
     (exists r, parse_varassign (Lines.text (fst lr)) = Ok r) -> snd lr <> Panic) ls.
-Proof. exact ml_no_panic. Qed.
-Print Assumptions C10mk_varassign_ml_no_panic.
+Proof. exact ml_no_panic_lines. Qed.
+Print Assumptions C10mk_varassign_ml_no_panic_partial.
 
-(* the former witness of the panic (fixed): VAR.${PARAM:S,=,,}\ / = value is no assignment *)
+(* the former witness of the panic: VAR.${PARAM:S,=,,}\ / = value is no assignment *)
 Example C10mk_varassign_ml_witness :
   varassign_of_file ml_witness_file =
     Ok [(Lines.mk_line 1 ml_witness_text [ml_witness_raw0 ++ [10]; [61;32;118;97;108;117;101;10]], Ok None)].
